@@ -257,7 +257,13 @@ def expr_of(pa, v, depth=0, at=None):
             i, key = best
             e = pa.log[i]
             suffix = lab[len(key):]
-            node = (short(e[1]),) + tuple(expr_of(pa, a, depth + 1, i) for a in e[2])
+            argv = [expr_of(pa, a, depth + 1, i) for a in e[2]]
+            # the receiver is a tracked sub-slice object (result of an earlier index / split call) whose *contents* a
+            # callee havocked in between: it is still that object - name it by the object, not by the havoc
+            if argv and len(e) > 3 and e[3] and len(e[3]) == 1 and isinstance(e[3][0], str) and e[3][0].startswith("obj:ret:") \
+                    and isinstance(argv[0], str) and argv[0].startswith("top:havoc:") and depth < 20:
+                argv[0] = expr_of(pa, "top:" + e[3][0][4:], depth + 1, i)
+            node = (short(e[1]),) + tuple(argv)
             return node if not suffix else (node, suffix)
     return v
 
